@@ -13,6 +13,7 @@
 #undef private
 #include "ola/rdm/PidStore.h"
 #include "common/rdm/DescriptorConsistencyChecker.h"
+#include "common/rdm/GroupSizeCalculator.h"
 #include "common/rdm/VariableFieldSizeCalculator.h"
 #include "c14_desc.h"
 #include "vh.h"
@@ -27,6 +28,30 @@ using std::string;
 using std::vector;
 
 static const RootPidStore *g_store = NULL;
+// ONE serializer for the whole run (as PidStoreHelper keeps one): every case is also re-encoded
+// through it, after its buffer has been filled with 0xff by another message.
+static ola::rdm::MessageSerializer *g_shared = NULL;
+
+static string shared_serialize(const Message *m, size_t payload_len) {
+  if (!g_shared) g_shared = new ola::rdm::MessageSerializer();
+  {
+    std::vector<const ola::messaging::FieldDescriptor*> gf, fs;
+    gf.push_back(new ola::messaging::UInt8FieldDescriptor("x"));
+    fs.push_back(new ola::messaging::FieldDescriptorGroup("g", gf, 0, -1));
+    Descriptor dd("", fs);
+    vector<uint8_t> ff(payload_len + 64, 0xff);
+    vh::Exact fe(ff);
+    ola::rdm::MessageDeserializer des;
+    std::auto_ptr<const Message> dm(des.InflateMessage(&dd, fe.p, fe.n));
+    if (!dm.get()) return "dirty-setup-failed";
+    unsigned int dn = 0;
+    const uint8_t *dout = g_shared->SerializeMessage(dm.get(), &dn);
+    if (dn != ff.size() || memcmp(dout, ff.data(), dn)) return "dirty-setup-mismatch";
+  }
+  unsigned int n = 0;
+  const uint8_t *out = g_shared->SerializeMessage(m, &n);
+  return vh::hex(out, n);
+}
 
 static const char *state_name(VariableFieldSizeCalculator::calculator_state s) {
   switch (s) {
@@ -53,6 +78,17 @@ static string run(const Descriptor *d, unsigned prev, const vector<uint8_t> &byt
     o << ";cs=" << state_name(st);
     if (st == VariableFieldSizeCalculator::VARIABLE_STRING || st == VariableFieldSizeCalculator::VARIABLE_GROUP)
       o << ":" << v;
+  }
+  {
+    // GroupSizeCalculator, with the payload length taken as the token count
+    ola::rdm::GroupSizeCalculator gcalc;
+    unsigned int v = 0;
+    static const char *names[] = {"INSUFFICIENT_TOKENS", "EXTRA_TOKENS", "NO_VARIABLE_GROUPS",
+                                  "SINGLE_VARIABLE_GROUP", "MULTIPLE_VARIABLE_GROUPS",
+                                  "NESTED_VARIABLE_GROUPS", "MISMATCHED_TOKENS"};
+    ola::rdm::GroupSizeCalculator::calculator_state st = gcalc.CalculateGroupSize(bytes.size(), d, &v);
+    o << ";gs=" << names[st];
+    if (st == ola::rdm::GroupSizeCalculator::SINGLE_VARIABLE_GROUP) o << ":" << v;
   }
   ola::rdm::MessageDeserializer deserializer;
   {
@@ -94,6 +130,8 @@ static string run(const Descriptor *d, unsigned prev, const vector<uint8_t> &byt
       again = c14::msg_str(m2.get()) == c14::msg_str(m.get()) && vector<uint8_t>(o2, o2 + n2) == outv;
     }
     o << ";again=" << (again ? 1 : 0) << ";cap=" << cap_after;
+    string sh = shared_serialize(m.get(), bytes.size());
+    o << ";shared=" << (sh == vh::hex(outv) ? string("same") : sh);
   }
   return o.str();
 }
